@@ -222,12 +222,15 @@ def gen_cases(run):
     # container-aware hostile archives: valid signatures and checksums, counts that cannot be allocated
     for name in ("7z-huge-file-count", "7z-huge-stream-count", "zip-huge-entry-count", "7z-self-referential-encoded-header", "7z-encoded-header-chain"):
         sources.setdefault("zip", []).append(["synth", name])
+    sources.setdefault("docx", []).append(["synth", "docx-equations-nested-48"])
     all_src = [(k, s) for k, v in sources.items() for s in v]
     per_base = run.n(24, 400)
     modes_extra = ["read_file", "cli", "cli-narrow", "cli-json", "cli-json-unit", "cli-json-binary", "zip", "tar", "tgz", "attachment"]
     # multi-result inputs whose first result is plain ASCII and whose later results are not
     sources.setdefault("zip", []).append(["synth", "zip-ascii-then-nonascii"])
     sources.setdefault("mbox", []).append(["synth", "mbox-ascii-then-nonascii"])
+    # members that are themselves compressed streams / archives under every routed name
+    sources.setdefault("zip", []).append(["synth", "zip-with-compressed-members"])
     cid = 0
     for kind in corpus.KINDS:
         bases = sources.get(kind, [])
@@ -284,6 +287,13 @@ def judge(run, case, ob):
     if ob.get("_oom"):
         run.violation(f"C01:{tag}:{fam}:memory-exhausted", f"{kind} via {mode}: MemoryError escaped under the 1.5 GiB address-space limit ({fam}/{rec.get('op')})", rep)
         return "oom"
+    if ob.get("_timeout") and ob.get("_blocked"):
+        # the deadline passed while the worker was asleep without using CPU: not slow, not starved - waiting for something that never
+        # comes (a lock it holds itself, a pipe); the watchdog's stack dump says where
+        at = ob.get("_stuck_at") or "unknown"
+        run.violation(f"C01:{at}:blocked-forever", f"{kind} via {mode}: the call never returned and the process slept without using CPU ({ob.get('cpu_s')} s CPU in 150 s): blocked in {at} "
+                      f"({fam}/{rec.get('op')} of {rec['src']})", rep)
+        return "blocked"
     if ob.get("_timeout") or ob.get("_died"):
         if ob.get("_died") and ob.get("returncode") not in (None, 0):
             run.violation(f"C01:{tag}:{fam}:interpreter-died", f"{kind} via {mode}: worker process died (returncode {ob.get('returncode')}) on {fam}/{rec.get('op')}: {ob.get('stderr', '')[-300:]}", rep)
